@@ -9,13 +9,15 @@ package main
 // replayed through the MG registry model (table-not-found exactly for unknown / closed / released ids).
 
 import (
+	"bytes"
 	"encoding/json"
 	"errors"
 	"flag"
 	"fmt"
 	"math/rand"
 	"os"
-	"path/filepath"
+	"os/exec"
+	"regexp"
 	"strings"
 	"sync"
 	"time"
@@ -296,8 +298,8 @@ func (c *mgrCtx) makeTwin() error {
 	return nil
 }
 
-func runMgr(args []string) {
-	fs := flag.NewFlagSet("mgr", flag.ExitOnError)
+func runMgrChild(args []string) {
+	fs := flag.NewFlagSet("mgrchild", flag.ExitOnError)
 	seed := fs.Int64("seed", 1, "PRNG seed")
 	nt := fs.Int("ntable", 40, "table-level histories")
 	nh := fs.Int("nhand", 24, "hand-level histories")
@@ -315,11 +317,10 @@ func runMgr(args []string) {
 		os.Exit(2)
 	}
 	viaMgr = c
-	dir := filepath.Dir(*out)
-	tbOut := filepath.Join(dir, "mg-part-tb.trace")
-	hdOut := filepath.Join(dir, "mg-part-hd.trace")
-	tbStats := filepath.Join(dir, "mg-part-tb.json")
-	hdStats := filepath.Join(dir, "mg-part-hd.json")
+	tbOut := *out + ".part-tb.trace"
+	hdOut := *out + ".part-hd.trace"
+	tbStats := *out + ".part-tb.json"
+	hdStats := *out + ".part-hd.json"
 	runTable([]string{"-inproc", "-seed", fmt.Sprint(*seed), "-n", fmt.Sprint(*nt), "-hands", fmt.Sprint(*hands), "-out", tbOut, "-stats", tbStats, "-workers", fmt.Sprint(*workers)})
 	runHand([]string{"-inproc", "-seed", fmt.Sprint(*seed), "-n", fmt.Sprint(*nh), "-hands", "2", "-out", hdOut, "-stats", hdStats, "-workers", fmt.Sprint(*workers)})
 	viaMgr = nil
@@ -381,4 +382,91 @@ func orNull(b []byte) string {
 		return "null"
 	}
 	return string(b)
+}
+
+var hidRe = regexp.MustCompile(` h=\d+`)
+
+// runMgr: the supervisor — several child processes, each with its own shared manager, twin table and set of tables
+// (a panic in one of the engine's goroutines cannot be recovered and must not take the other children's traces along)
+func runMgr(args []string) {
+	fs := flag.NewFlagSet("mgr", flag.ExitOnError)
+	seed := fs.Int64("seed", 1, "PRNG seed")
+	nt := fs.Int("ntable", 40, "table-level histories")
+	nh := fs.Int("nhand", 24, "hand-level histories")
+	hands := fs.Int("hands", 5, "max hands per table-level history")
+	out := fs.String("out", "mg.trace", "trace file")
+	statsFile := fs.String("stats", "", "stats json")
+	workers := fs.Int("workers", 8, "parallel tables (all children together)")
+	procs := fs.Int("procs", 4, "child processes")
+	fs.Parse(args)
+	exe, _ := os.Executable()
+	if *procs < 1 {
+		*procs = 1
+	}
+	w := *workers / *procs
+	if w < 2 {
+		w = 2
+	}
+	type res struct {
+		trace, stats []byte
+		err          error
+		stderr       string
+	}
+	rs := make([]res, *procs)
+	var wg sync.WaitGroup
+	for k := 0; k < *procs; k++ {
+		wg.Add(1)
+		go func(k int) {
+			defer wg.Done()
+			o := fmt.Sprintf("%s.child%d", *out, k)
+			st := o + ".json"
+			cmd := exec.Command(exe, "mgrchild", "-seed", fmt.Sprint(*seed*100+int64(k)), "-ntable", fmt.Sprint((*nt+*procs-1) / *procs),
+				"-nhand", fmt.Sprint((*nh+*procs-1) / *procs), "-hands", fmt.Sprint(*hands), "-workers", fmt.Sprint(w), "-out", o, "-stats", st)
+			var eb bytes.Buffer
+			cmd.Stderr = &eb
+			rs[k].err = cmd.Run()
+			rs[k].trace, _ = os.ReadFile(o)
+			rs[k].stats, _ = os.ReadFile(st)
+			e := eb.String()
+			if len(e) > 8000 {
+				e = e[:8000]
+			}
+			rs[k].stderr = e
+			os.Remove(o)
+			os.Remove(st)
+			for _, sfx := range []string{".part-tb.trace", ".part-hd.trace", ".part-tb.json", ".part-hd.json"} {
+				os.Remove(o + sfx)
+			}
+		}(k)
+	}
+	wg.Wait()
+	var sb strings.Builder
+	hist, dist := 0, 0
+	kids := []string{}
+	for k, r := range rs {
+		// history numbers are per child: make them unique in the merged trace
+		sb.WriteString(hidRe.ReplaceAllStringFunc(string(r.trace), func(m string) string {
+			var n int
+			fmt.Sscanf(m[len(" h="):], "%d", &n)
+			return fmt.Sprintf(" h=%d", k*100000+n)
+		}))
+		if r.err != nil {
+			os.WriteFile(fmt.Sprintf("%s.crash-unattributed-h%d.txt", *out, k), []byte(r.stderr), 0644)
+			sb.WriteString("cc anomaly CRASH.unattributed-engine-panic\n")
+		}
+		var m map[string]interface{}
+		if json.Unmarshal(r.stats, &m) == nil {
+			if v, ok := m["histories"].(float64); ok {
+				hist += int(v)
+			}
+			if v, ok := m["distinct_histories"].(float64); ok {
+				dist += int(v)
+			}
+			kids = append(kids, string(r.stats))
+		}
+	}
+	os.WriteFile(*out, []byte(sb.String()), 0644)
+	if *statsFile != "" {
+		os.WriteFile(*statsFile, []byte(fmt.Sprintf("{\"histories\":%d,\"distinct_histories\":%d,\"children\":[%s]}", hist, dist, strings.Join(kids, ","))), 0644)
+	}
 }
